@@ -147,8 +147,39 @@ def run_unit(A, unit, rep, tier):
     rep.ok("C18.e", f"C18.e {cls.name}: no dynamic setattr/delattr on mutator paths")
 
 
+def check_plain_rebind(A, rep):
+    """No code path rebinds _data to the result of _to_base()/__call__ (plain
+    containers): nested containers would stop being synced nodes."""
+    n_sites = 0
+    for cls in A.concrete():
+        graphs = [A.graph(cls, "_update", "root", "none")[1]]
+        if A.is_buffered(cls):
+            for mu in ("none", "obj", "backend"):
+                for force in (False, True):
+                    graphs.append(A.graph(cls, "_flush", "root", mu, args=[Val("const", force)])[1])
+        for g in graphs:
+            for n in live(g):
+                if n.kind == "data_mut" and n["op"] == "rebind":
+                    n_sites += 1
+                    plain = False
+                    for (p, l) in g.pred[n.id]:
+                        q = g.nodes[p]
+                        while q.kind == "join" and g.pred[q.id]:
+                            q = g.nodes[g.pred[q.id][0][0]]
+                        if q.kind == "leave" and q["fname"] in ("_to_base", "__call__") and q["ret"] == n["value"]:
+                            plain = True
+                    if plain:
+                        rep.fail("C18.b", norm_key("C18.b", n.func, n.stmt),
+                                 f"{n.func}: `{n.stmt}` rebinds _data to plain (unconverted) data: nested containers are no longer synced collections of the root's family, so mutating them does not persist",
+                                 [n.where() + ": " + n.stmt], g.label)
+                    else:
+                        rep.ok("C18.b")
+    return n_sites
+
+
 def check_attr(A, rep):
     m = A.model
+    check_plain_rebind(A, rep)
     attr_classes = [c for c in A.concrete() if c.is_subclass_of("AttrDict")]
     rep.floor("attribute-access classes", len(attr_classes), 3)
     for c in attr_classes:
